@@ -84,6 +84,17 @@ def check(rep, tier, seed):
     big = {"kind": "rec", "name": "Big", "fields": [{"name": "a", "ty": G.P("u8"), "opt": False, "transient": None}],
            "steps": [("rem", f"r{k}") for k in range(254)]}
     cases.append(R.mk([big], ("named", 0), "(0 n7)", "-", "rt"))
+    # beyond the limit (255, 256, 257, 300 declared steps: the version byte cannot hold them) the declaration itself is
+    # refused when its metadata is built - by an assertion, in the model `Panic PAssert` - and never encodes anything
+    over = []
+    for k in (255, 256, 257, 300, 510, 511):
+        bigk = dict(big, steps=[("rem", f"r{j}") for j in range(k)])
+        over.append(R.mk([bigk], ("named", 0), "(0 n7)", "-", "rt"))
+    oimpl, omod = C.run_codec(harness, model, over, wd, "over")
+    for c, a, m in zip(over, oimpl, omod):
+        if not (a.startswith("panic Too many evolution steps") and m.startswith("panic assert")):
+            bad.append((f"a record declared with {len(c['_env'][0]['steps'])} evolution steps: rt (named 0) (0 n7) -", a,
+                        "a declaration with more evolution steps than the version byte can hold is not refused"))
     impl, mod = C.run_codec(harness, model, cases, wd, "e")
     impl_d, mod_d = C.run_codec(hdebug, model, cases[:2000], wd, "ed")
     dis = [(C.codec_line(c), a, b) for c, a, b in zip(cases, impl, mod) if a != b]
